@@ -50,8 +50,9 @@ CHECKS = {
                 "passed to visitMaybeAmbiguous*, and every other child of a class with a visit function is descended into; C09_no_ambiguity_left: on ANY tree whose ambiguity nodes have ordinary alternatives, when every "
                 "slot is handled and decisions are conclusive the traversal completes and the result contains no ambiguity node, wherever they were (C09_unhandled_slot_keeps_ambiguity: one unhandled slot keeps "
                 "the node silently); C09_block_catalogue: for EVERY block and start catalogue, after the block's own mentions a name is catalogued as a type iff the block mentions it as a type or it was one before and "
-                "the block does not mention it as a non-type (and symmetrically) — the erase-on-shadowing rule with nesting depths does what block scoping requires; hence C09_own_declaration_wins (shadowing) and "
-                "C09_unmentioned_is_inherited.  C09_late_redeclaration_refuted shows the catalogue is per block, not per position (C10's known finding).  Correspondence: generated programs placing every "
+                "the block does not mention it as a non-type (and symmetrically) — the erase-on-shadowing rule with nesting depths does what block scoping requires; hence C09_own_declaration_wins (shadowing), "
+                "C09_unmentioned_is_inherited, and their composition over ANY nesting: C09_sites_follow_scoping / C09_decisions_are_the_scoping_reading — every ambiguity site of a unit in which no "
+                "block mentions a name in both categories is decided exactly as the scoping environment reads the name (enclosing blocks' mentions up to the point of entry plus all of the site's own block).  C09_late_redeclaration_refuted shows the catalogue is per block, not per position (C10's known finding).  Correspondence: generated programs placing every "
                 "ambiguity form in every statement/expression context with every way of declaring the names, under the four disambiguation modes: reading vs a positional symbol table, no node left in the default/"
                 "Heuristic modes, node only with its diagnostic in mode Algorithmic, one diagnostic per node and equal token coverage of both alternatives in mode None.",
         "design_ref": "DESIGN.md section 6, C09",
